@@ -18,7 +18,7 @@ TupleS(chs) == Node("tuple", chs)
 DictS(keys, chs) == [k |-> "dict", sh |-> <<>>, dt |-> "", ch |-> chs, keys |-> keys]
 StokesKinds == {"I", "QU", "IQU", "IQUV"}
 NComp(kind) == CASE kind = "I" -> 1 [] kind = "QU" -> 2 [] kind = "IQU" -> 3 [] kind = "IQUV" -> 4
-StokesS(kind, sh, dt) == Node(kind, [i \in 1..NComp(kind) |-> Leaf(sh, dt)])
+StokesS(kind, sh, dt) == Node(kind, TLCEval([i \in 1..NComp(kind) |-> Leaf(sh, dt)]))
 
 IsLeafS(s) == s.k = "leaf"
 
